@@ -106,6 +106,20 @@ def one(cases, rng, tier, rep, d):
                 xl = rnd_tt(rng, M2)
                 mk(cases, "matmul/tt-ttm/inner-mismatch/pos%d/%s" % (pos, tag), lambda A=A, xl=xl: xl @ A, ShapeMismatch,
                    model=J("guard", "matmul", shape_tok(xl), shape_tok(A)))
+                # size-1 variants of the contraction guard: the contracted mode of the vector-like operand has size 1 (einsum would broadcast it)
+                if N[pos] > 1:
+                    N1 = list(N); N1[pos] = 1
+                    xv1 = rnd_tt(rng, N1)
+                    mk(cases, "matmul/ttm-tt/inner-size1/pos%d/%s" % (pos, tag), lambda A=A, xv1=xv1: A @ xv1, ShapeMismatch,
+                       model=J("guard", "matmul", shape_tok(A), shape_tok(xv1)))
+                    Bm1 = rnd_tt(rng, [2] * d, N1)
+                    mk(cases, "matmul/ttm-ttm/inner-size1/pos%d/%s" % (pos, tag), lambda A=A, Bm1=Bm1: A @ Bm1, ShapeMismatch,
+                       model=J("guard", "matmul", shape_tok(A), shape_tok(Bm1)))
+                if M[pos] > 1:
+                    Ml1 = list(M); Ml1[pos] = 1
+                    xl1 = rnd_tt(rng, Ml1)
+                    mk(cases, "matmul/tt-ttm/inner-size1/pos%d/%s" % (pos, tag), lambda A=A, xl1=xl1: xl1 @ A, ShapeMismatch,
+                       model=J("guard", "matmul", shape_tok(xl1), shape_tok(A)))
                 dn = tn.ones([2] + N2, dtype=tn.float64)
                 mk(cases, "matmul/ttm-dense/mismatch/pos%d/%s" % (pos, tag), lambda A=A, dn=dn: A @ dn, ShapeMismatch)
                 mk(cases, "bilinear/shape/pos%d/%s" % (pos, tag), lambda A=A, xl=xl, x=x: torchtt.bilinear_form(xl, A, x), ShapeMismatch, model=J("guard2", "bilinear", shape_tok(xl), shape_tok(A), shape_tok(x)))
